@@ -140,7 +140,7 @@ class RefWorld:
         self.ref.clear()
 
 
-def facts_impl(w, key):
+def facts_impl(w, key, cap=40):
     """read back the dynamic facts AND definitions of name/arity with an all-variables query"""
     name, n = key
     vs = [w.yp.variable() for _ in range(n)]
@@ -148,21 +148,21 @@ def facts_impl(w, key):
     q = w.yp.query(name, vs)
     for _ in q:
         rows.append(impl.observe(vs))
-        if len(rows) > 40:
+        if len(rows) > cap:
             q.close()
             rows.append('runaway')
             break
     return tuple(rows)
 
 
-def facts_ref(w, key):
+def facts_ref(w, key, cap=40):
     name, n = key
     vs = [w.ref.fresh() for _ in range(n)]
     goal = ('f', name, tuple(vs)) if n else ('a', name)
     rows = []
     for e in w.ref.iter_env(goal):
         rows.append(canon(vs, e))
-        if len(rows) > 40:
+        if len(rows) > cap:
             rows.append('runaway')
             break
     return tuple(rows)
